@@ -22,17 +22,54 @@ fn read_corpus(path: &str) -> Vec<String> {
     out
 }
 
+/// a corpus entry that is a file tree: "\u{1}TREE" + one "\u{1}FILE <name>\n<content>" section per file (the first is the main file)
+fn tree_files(text: &str) -> Option<Vec<(String, String)>> {
+    let rest = text.strip_prefix("\u{1}TREE")?;
+    let mut out = Vec::new();
+    for sec in rest.split("\u{1}FILE ").skip(1) {
+        let (name, content) = sec.split_once('\n')?;
+        out.push((name.to_string(), content.to_string()));
+    }
+    Some(out)
+}
+
 fn transcript(text: &str, strict: bool) -> String {
     let r = catch_unwind(AssertUnwindSafe(|| {
         let mut t = String::new();
-        match a2lfile::load_from_string(text, None, strict) {
+        // file trees are materialised in a private directory; its path is removed from the transcript
+        let mut tree_dir: Option<std::path::PathBuf> = None;
+        let loaded = match tree_files(text) {
+            Some(files) => {
+                let base = if std::path::Path::new("/dev/shm").is_dir() { std::path::PathBuf::from("/dev/shm") } else { std::env::temp_dir() };
+                let d = base.join(format!("verif-c20-tree-{}-{:?}", std::process::id(), std::thread::current().id()).replace(['(', ')'], ""));
+                let _ = std::fs::remove_dir_all(&d);
+                for (n, c) in &files {
+                    let p = d.join(n);
+                    if let Some(parent) = p.parent() {
+                        let _ = std::fs::create_dir_all(parent);
+                    }
+                    let _ = std::fs::write(&p, c);
+                }
+                let main = d.join(&files[0].0);
+                tree_dir = Some(d);
+                a2lfile::load(&main, None, strict)
+            }
+            None => a2lfile::load_from_string(text, None, strict),
+        };
+        let strip = |s: String| -> String {
+            match &tree_dir {
+                Some(d) => s.replace(&*d.to_string_lossy(), "<dir>"),
+                None => s,
+            }
+        };
+        match loaded {
             Ok((f, log)) => {
                 t.push_str("OK\n");
                 // (hash maps inside generic IF_DATA print in a per-process order: canonical form)
                 t.push_str(&vcore::dbgtree::canon_debug(&format!("{f:?}")));
                 t.push('\n');
                 for e in &log {
-                    t.push_str(&format!("DIAG {e}\n"));
+                    t.push_str(&strip(format!("DIAG {e}\n")));
                 }
                 t.push_str("--- written\n");
                 t.push_str(&f.write_to_string());
@@ -44,8 +81,11 @@ fn transcript(text: &str, strict: bool) -> String {
                 t.push_str(&f2.write_to_string());
             }
             Err(e) => {
-                t.push_str(&format!("ERR {e}\n"));
+                t.push_str(&strip(format!("ERR {e}\n")));
             }
+        }
+        if let Some(d) = &tree_dir {
+            let _ = std::fs::remove_dir_all(d);
         }
         t
     }));
